@@ -353,3 +353,32 @@ def targeted(pid, rng, n):
         else:
             out.append(gen_tree(rng, depth=rng.choice([1, 2, 2, 3])))
     return out
+
+
+def exhaustive_small(rng, budget=60000):
+    """thorough tier: every DAG on <= 3 jobs x durations in {0,1,2} x outcomes (returns / raises non-critical /
+    raises critical) x windows {None,1,2}, flat and with the last two jobs inside a nested scheduler (both
+    critical flags); sampled down to `budget` when larger"""
+    out = []
+    outcomes = [(False, False), (True, False), (True, True)]
+    for n in (1, 2, 3):
+        pairs = [(x, y) for x in range(n) for y in range(x)]
+        for bits in range(1 << len(pairs)):
+            edges = [p for i, p in enumerate(pairs) if bits >> i & 1]
+            for durs in itertools.product((0, 1, 2), repeat=n):
+                for outs in itertools.product(outcomes, repeat=n):
+                    for w in (None, 1, 2):
+                        jobs = [J("j%d" % i, durs[i], exc=outs[i][0], crit=outs[i][1], h=i,
+                                  req=["j%d" % y for x, y in edges if x == i]) for i in range(n)]
+                        out.append(dict(tree=S("top", jobs, w=w, pure=(bits + n) % 2 == 0)))
+                        if n == 3 and not any(x == 0 for x, y in edges if False):
+                            # jobs 1,2 inside a nested scheduler that requires what they required of job 0
+                            inner = [copy.deepcopy(jobs[1]), copy.deepcopy(jobs[2])]
+                            outer_req = sorted({r for jb in inner for r in jb["req"] if r == "j0"})
+                            for jb in inner:
+                                jb["req"] = [r for r in jb["req"] if r != "j0"]
+                            nested = S("in", inner, crit=(bits % 2 == 0), w=w, req=outer_req, h=1)
+                            out.append(dict(tree=S("top", [copy.deepcopy(jobs[0]), nested], pure=False, crit=(bits % 4 < 2))))
+    if len(out) > budget:
+        out = rng.sample(out, budget)
+    return out
